@@ -32,6 +32,7 @@ import (
 	"net"
 	"os"
 	"path/filepath"
+	"reflect"
 	"runtime"
 	"strconv"
 	"sync"
@@ -465,10 +466,15 @@ type vqSched struct {
 	ev      chan vqEvent
 	cur     *vqCaller
 	stopped bool
+	free    func(gate string) // free-running mode: gates only log
 }
 
 // park is called on the goroutine of the code under test.
 func (s *vqSched) park(gate string) {
+	if s.free != nil {
+		s.free(gate)
+		return
+	}
 	c := s.cur
 	if c == nil || s.stopped {
 		return
@@ -651,6 +657,7 @@ type fqPathIn struct {
 	ID      int        `json:"id"`
 	InitObs *fqObs     `json:"init_obs"`
 	Steps   []fqStepIn `json:"steps"`
+	Free    *vqFree    `json:"free,omitempty"`
 }
 
 type fqStepOut struct {
@@ -1306,6 +1313,13 @@ func fqRunPath(u *vqUniverse, w *vqWorker, p fqPathIn, seed int64) (out fqPathOu
 		out.Error = err.Error()
 		return
 	}
+	if p.Free != nil {
+		out.Steps, err = e.runFree(p.Free)
+		if err != nil {
+			out.Error = "free run: " + err.Error()
+		}
+		return
+	}
 	for _, s := range p.Steps {
 		e.vn, e.lastVn = s.Vn, 0
 		a, variant, err := e.exec(s.Act)
@@ -1475,6 +1489,7 @@ type bqPathIn struct {
 	ID      int        `json:"id"`
 	InitObs *bqObs     `json:"init_obs"`
 	Steps   []bqStepIn `json:"steps"`
+	Free    *vqFree    `json:"free,omitempty"`
 }
 
 type bqStepOut struct {
@@ -1669,13 +1684,9 @@ func (e *bqEnv) message(k string, b, tgt int) (wire.Message, string) {
 		if err := e.last.BtcEncode(&buf, wire.ProtocolVersion, wire.WitnessEncoding); err != nil {
 			return e.last, "dup/same-object"
 		}
-		var cp wire.Message
-		switch e.last.(type) {
-		case *wire.MsgBlock:
-			cp = &wire.MsgBlock{}
-		case *wire.MsgTx:
-			cp = &wire.MsgTx{}
-		default:
+		// a duplicate on the wire is a new message object with the same bytes
+		cp, ok := reflect.New(reflect.TypeOf(e.last).Elem()).Interface().(wire.Message)
+		if !ok {
 			return e.last, "dup/same-object"
 		}
 		if err := cp.BtcDecode(&buf, wire.ProtocolVersion, wire.WitnessEncoding); err != nil {
@@ -1942,6 +1953,13 @@ func bqRunPath(u *vqUniverse, w *vqWorker, p bqPathIn, seed int64) (out bqPathOu
 		out.Error = err.Error()
 		return
 	}
+	if p.Free != nil {
+		out.Steps, err = e.runFree(p.Free)
+		if err != nil {
+			out.Error = "free run: " + err.Error()
+		}
+		return
+	}
 	for _, s := range p.Steps {
 		e.vn, e.lastVn = s.Vn, 0
 		a, variant, err := e.exec(s.Act)
@@ -1967,6 +1985,470 @@ func TestVerifBlockQueryReplay(t *testing.T) {
 		}
 		return json.Marshal(bqRunPath(u, w, p, seed))
 	})
+}
+
+// ==========================================================================
+// Free-running mode: the REAL query.WorkManager (dispatcher + workers) with
+// scripted mock peers.  The order of events is whatever the dispatcher makes
+// it; every handler invocation is logged (with the projected state) under one
+// mutex, and the recorded trace is judged by the same Props operators and
+// checked to be a behaviour of the specification (walk of TLC's state graph).
+// ==========================================================================
+
+type vqFreeItem struct {
+	K string `json:"k"`
+	B int    `json:"b"`
+}
+
+type vqFreePeerSpec struct {
+	P      int          `json:"p"`
+	Script []vqFreeItem `json:"script"`
+	End    string       `json:"end"` // "disconnect" | "silent"
+}
+
+type vqFreeCall struct {
+	Tgt     int              `json:"tgt"`
+	M       string           `json:"m"`
+	Cap     int              `json:"cap"`
+	Retries int              `json:"retries"`
+	Peers   []vqFreePeerSpec `json:"peers"`
+}
+
+type vqFree struct {
+	Calls []vqFreeCall `json:"calls"`
+}
+
+type vqSent struct {
+	k, variant string
+	b, vn      int
+}
+
+type vqNet struct {
+	mu     sync.Mutex // serialises handler invocations and logging
+	smu    sync.Mutex
+	sent   map[wire.Message]vqSent
+	done   chan struct{}
+	peerCh chan query.Peer
+	peers  map[int]*vqMockPeer
+	wm     query.WorkManager
+	build  func(k string, b int) (wire.Message, string, int)
+	addr   func(p int) string
+}
+
+type vqMockPeer struct {
+	net    *vqNet
+	p      int
+	addr   string
+	quit   chan struct{}
+	reqs   chan wire.Message
+	mu     sync.Mutex
+	subs   []chan wire.Message
+	script []vqFreeItem
+	end    string
+}
+
+func (m *vqMockPeer) QueueMessageWithEncoding(msg wire.Message, done chan<- struct{}, _ wire.MessageEncoding) {
+	select {
+	case m.reqs <- msg:
+	case <-m.net.done:
+	case <-m.quit:
+	}
+	if done != nil {
+		close(done)
+	}
+}
+
+func (m *vqMockPeer) SubscribeRecvMsg() (<-chan wire.Message, func()) {
+	ch := make(chan wire.Message)
+	m.mu.Lock()
+	m.subs = append(m.subs, ch)
+	m.mu.Unlock()
+	return ch, func() {}
+}
+
+func (m *vqMockPeer) Addr() string                  { return m.addr }
+func (m *vqMockPeer) OnDisconnect() <-chan struct{} { return m.quit }
+
+func (m *vqMockPeer) run() {
+	for {
+		select {
+		case <-m.reqs:
+		case <-m.net.done:
+			return
+		case <-m.quit:
+			return
+		}
+		m.mu.Lock()
+		script, end := m.script, m.end
+		m.script = nil
+		subs := append([]chan wire.Message(nil), m.subs...)
+		m.mu.Unlock()
+		for _, it := range script {
+			msg, variant, vn := m.net.build(it.K, it.B)
+			m.net.smu.Lock()
+			m.net.sent[msg] = vqSent{k: it.K, b: it.B, variant: variant, vn: vn}
+			m.net.smu.Unlock()
+			for _, ch := range subs {
+				select {
+				case ch <- msg:
+				case <-m.net.done:
+					return
+				case <-time.After(10 * time.Second):
+				}
+			}
+		}
+		if end == "disconnect" && script != nil {
+			close(m.quit)
+			return
+		}
+	}
+}
+
+func newVqNet(build func(k string, b int) (wire.Message, string, int), addr func(p int) string) *vqNet {
+	n := &vqNet{sent: map[wire.Message]vqSent{}, done: make(chan struct{}), peerCh: make(chan query.Peer, 16),
+		peers: map[int]*vqMockPeer{}, build: build, addr: addr}
+	n.wm = query.NewWorkManager(&query.Config{
+		ConnectedPeers: func() (<-chan query.Peer, func(), error) { return n.peerCh, func() {}, nil },
+		NewWorker:      query.NewWorker,
+		Ranking:        query.NewPeerRanking(),
+	})
+	return n
+}
+
+// arm gives every peer of the call its script, (re)connecting peers that are
+// not connected.
+func (n *vqNet) arm(specs []vqFreePeerSpec) {
+	for _, sp := range specs {
+		m := n.peers[sp.P]
+		alive := false
+		if m != nil {
+			select {
+			case <-m.quit:
+			default:
+				alive = true
+			}
+		}
+		if !alive {
+			m = &vqMockPeer{net: n, p: sp.P, addr: n.addr(sp.P), quit: make(chan struct{}),
+				reqs: make(chan wire.Message, 4)}
+			n.peers[sp.P] = m
+		}
+		m.mu.Lock()
+		m.script, m.end = append([]vqFreeItem{}, sp.Script...), sp.End
+		m.mu.Unlock()
+		if !alive {
+			go m.run()
+			n.peerCh <- m
+		}
+	}
+}
+
+func (n *vqNet) peerIndex(addr string) int {
+	for p, m := range n.peers {
+		if m.addr == addr {
+			return p
+		}
+	}
+	return 0
+}
+
+// tracing work manager: the real one, with every handler call logged
+type vqTraceWM struct {
+	n        *vqNet
+	onSubmit func(reqs []*query.Request)
+	onResp   func(info vqSent, known bool, peer string, res string)
+	verdict  chan error
+}
+
+func (w *vqTraceWM) Start() error { return w.n.wm.Start() }
+func (w *vqTraceWM) Stop() error  { return w.n.wm.Stop() }
+func (w *vqTraceWM) Query(reqs []*query.Request, opts ...query.QueryOption) chan error {
+	w.n.mu.Lock()
+	w.onSubmit(reqs)
+	w.n.mu.Unlock()
+	for _, r := range reqs {
+		orig := r.HandleResp
+		r.HandleResp = func(req, resp wire.Message, peer string) (p query.Progress) {
+			w.n.mu.Lock()
+			defer w.n.mu.Unlock()
+			res := ""
+			func() {
+				defer func() {
+					if r := recover(); r != nil {
+						res = "panic"
+					}
+				}()
+				p = orig(req, resp, peer)
+				res = vqProgress(p)
+			}()
+			w.n.smu.Lock()
+			info, known := w.n.sent[resp]
+			w.n.smu.Unlock()
+			w.onResp(info, known, peer, res)
+			return p
+		}
+	}
+	ch := w.n.wm.Query(reqs, opts...)
+	out := make(chan error, 1)
+	go func() {
+		select {
+		case err := <-ch:
+			w.verdict <- err
+			out <- err
+		case <-w.n.done:
+		}
+	}()
+	return out
+}
+
+// ---- BlockQuery, free-running
+
+func (e *bqEnv) runFree(f *vqFree) ([]bqStepOut, error) {
+	var steps []bqStepOut
+	var bmu sync.Mutex
+	net := newVqNet(nil, bqPeer)
+	tgt := 0
+	net.build = func(k string, b int) (wire.Message, string, int) {
+		bmu.Lock()
+		defer bmu.Unlock()
+		m, v := e.message(k, b, tgt)
+		e.last = m
+		return m, v, e.lastVn
+	}
+	var obsErr error
+	logStep := func(a bqAct, variant string, vn int) {
+		o, err := e.observe()
+		if err != nil && obsErr == nil {
+			obsErr = err
+		}
+		steps = append(steps, bqStepOut{Act: a, Obs: o, Var: variant, Vn: vn})
+	}
+	submitted := false
+	twm := &vqTraceWM{n: net, verdict: make(chan error, 1)}
+	twm.onSubmit = func(reqs []*query.Request) {
+		submitted = true
+		logStep(bqAct{Op: "HeaderLookup", Tgt: tgt, Res: "ok"}, "", 0)
+		logStep(bqAct{Op: "CacheLookup", Tgt: tgt, Res: "miss"}, "", 0)
+		logStep(bqAct{Op: "Submit", Tgt: tgt, Res: "ok"}, "", 0)
+	}
+	twm.onResp = func(info vqSent, known bool, peer string, res string) {
+		k := info.k
+		if !known {
+			k = "?"
+		}
+		logStep(bqAct{Op: "Resp", Tgt: tgt, K: k, B: info.b, P: net.peerIndex(peer), Res: res}, info.variant, info.vn)
+	}
+	e.cs.workManager = twm
+	if err := twm.Start(); err != nil {
+		return nil, err
+	}
+	defer func() {
+		close(net.done)
+		_ = twm.Stop()
+	}()
+	for _, call := range f.Calls {
+		bmu.Lock()
+		tgt = call.Tgt
+		e.last = nil
+		bmu.Unlock()
+		e.ret = vqRUN
+		submitted = false
+		net.arm(call.Peers)
+		hash := e.u.hashOf(call.Tgt, e.nb)
+		var blk *btcutil.Block
+		var err error
+		var pv interface{}
+		func() {
+			defer func() { pv = recover() }()
+			blk, err = e.cs.GetBlock(hash, NumRetries(uint8(call.Retries)))
+		}()
+		net.mu.Lock()
+		if submitted {
+			v := "ok"
+			select {
+			case ve := <-twm.verdict:
+				if ve != nil {
+					v = "err"
+				}
+			default:
+				v = "err" // returned without a verdict (shutdown)
+			}
+			res := "ok"
+			if pv != nil {
+				res = "panic"
+			}
+			logStep(bqAct{Op: "Verdict", Tgt: tgt, K: v, Res: res}, "", 0)
+		} else {
+			switch {
+			case pv != nil:
+				logStep(bqAct{Op: "HeaderLookup", Tgt: tgt, Res: "panic"}, "", 0)
+			case err != nil:
+				logStep(bqAct{Op: "HeaderLookup", Tgt: tgt, Res: "err"}, "", 0)
+			default:
+				logStep(bqAct{Op: "HeaderLookup", Tgt: tgt, Res: "ok"}, "", 0)
+				logStep(bqAct{Op: "CacheLookup", Tgt: tgt, Res: "hit"}, "", 0)
+			}
+		}
+		ra := bqAct{Op: "Return", Tgt: tgt}
+		switch {
+		case pv != nil:
+			e.ret, ra.Res = vqERR, "panic"
+		case err != nil:
+			e.ret, ra.Res = vqERR, "err"
+		default:
+			e.ret, ra.Res = e.classify(blk), "ok"
+		}
+		logStep(ra, "", 0)
+		net.mu.Unlock()
+	}
+	return steps, obsErr
+}
+
+// ---- FilterQuery, free-running (sequential calls, callers 1, 2)
+
+func (e *fqEnv) runFree(f *vqFree) ([]fqStepOut, error) {
+	var steps []fqStepOut
+	var bmu sync.Mutex
+	net := newVqNet(nil, func(p int) string { return fmt.Sprintf("10.0.%d.%d:18444", p, p) })
+	net.build = func(k string, b int) (wire.Message, string, int) {
+		bmu.Lock()
+		defer bmu.Unlock()
+		m, v := e.message(k, b)
+		return m, v, e.lastVn
+	}
+	var obsErr error
+	cur := fqAct{}
+	lo, hi := vqRUN, vqRUN
+	logStep := func(op, k string, b int, res string, variant string, vn int) {
+		a := cur
+		a.Op, a.K, a.B, a.Res, a.Lo, a.Hi = op, k, b, res, vqRUN, vqRUN
+		if op == "Submit" || op == "Resp" || op == "Verdict" {
+			a.Lo, a.Hi = lo, hi
+		}
+		e.ranCode = true
+		o, err := e.observe()
+		if err != nil && obsErr == nil {
+			obsErr = err
+		}
+		steps = append(steps, fqStepOut{Act: a, Obs: o, Var: variant, Vn: vn})
+	}
+	gate := ""
+	e.sched.free = func(g string) {
+		net.mu.Lock()
+		defer net.mu.Unlock()
+		gate = g
+		switch g {
+		case "db-in":
+			logStep("CacheLookup", "", 0, "miss", "", 0)
+		case "db-out":
+			logStep("DbLookup", "", 0, "miss", "", 0)
+		case "prep":
+			logStep("Lock", "", 0, "ok", "", 0)
+			logStep("CacheLookup2", "", 0, "miss", "", 0)
+		}
+	}
+	twm := &vqTraceWM{n: net, verdict: make(chan error, 1)}
+	caller := &vqCaller{}
+	twm.onSubmit = func(reqs []*query.Request) {
+		gate = "submit"
+		caller.reqs = reqs
+		lo, hi = e.reqRange(caller)
+		logStep("Prepare", "", 0, "ok", "", 0)
+		logStep("Submit", "", 0, "ok", "", 0)
+	}
+	twm.onResp = func(info vqSent, known bool, peer string, res string) {
+		k := info.k
+		if !known {
+			k = "?"
+		}
+		logStep("Resp", k, info.b, res, info.variant, info.vn)
+	}
+	e.cs.workManager = twm
+	if err := twm.Start(); err != nil {
+		return nil, err
+	}
+	defer func() {
+		close(net.done)
+		_ = twm.Stop()
+	}()
+	for i, call := range f.Calls {
+		if i >= 2 {
+			break
+		}
+		cur = fqAct{C: i + 1, Tgt: call.Tgt, M: call.M, Cap: call.Cap}
+		gate, lo, hi = "", vqRUN, vqRUN
+		net.arm(call.Peers)
+		opts := []QueryOption{NumRetries(uint8(call.Retries))}
+		switch call.M {
+		case "fwd":
+			opts = append(opts, OptimisticBatch())
+		case "rev":
+			opts = append(opts, OptimisticReverseBatch())
+		}
+		if call.Cap > 0 {
+			opts = append(opts, MaxBatchSize(int64(call.Cap)))
+		}
+		var flt *gcs.Filter
+		var err error
+		var pv interface{}
+		func() {
+			defer func() { pv = recover() }()
+			flt, err = e.cs.GetCFilter(e.u.hashOf(call.Tgt, e.btip), wire.GCSFilterRegular, opts...)
+		}()
+		net.mu.Lock()
+		early := func(ok bool) string {
+			switch {
+			case pv != nil:
+				return "panic"
+			case ok:
+				return "hit"
+			}
+			return "err"
+		}
+		switch gate {
+		case "":
+			logStep("CacheLookup", "", 0, early(err == nil), "", 0)
+		case "db-in":
+			logStep("DbLookup", "", 0, early(err == nil), "", 0)
+		case "db-out":
+			logStep("Lock", "", 0, "ok", "", 0)
+			logStep("CacheLookup2", "", 0, early(err == nil), "", 0)
+		case "prep":
+			res := "err"
+			if pv != nil {
+				res = "panic"
+			}
+			logStep("Prepare", "", 0, res, "", 0)
+		case "submit":
+			v := "ok"
+			select {
+			case ve := <-twm.verdict:
+				if ve != nil {
+					v = "err"
+				}
+			default:
+				v = "err"
+			}
+			res := "ok"
+			if pv != nil {
+				res = "panic"
+			}
+			logStep("Verdict", v, 0, res, "", 0)
+		}
+		switch {
+		case pv != nil:
+			e.ret[i] = vqERR
+			logStep("Return", "", 0, "panic", "", 0)
+		case err != nil:
+			e.ret[i] = vqERR
+			logStep("Return", "", 0, "err", "", 0)
+		default:
+			e.ret[i] = e.classify(flt, call.Tgt)
+			logStep("Return", "", 0, "ok", "", 0)
+		}
+		net.mu.Unlock()
+	}
+	return steps, obsErr
 }
 
 var _ = big.NewInt
